@@ -255,8 +255,11 @@ def r03_1(ctx) -> None:
                         while v.parent is not None:
                             v = v.parent  # (called from a nested wrapper: its enclosing definition carries the contract)
                         users.append(v)
-                    if users and all(BY_CONTRACT.get(ctx.pkg.canonical(v)) for v in users):
-                        contract = BY_CONTRACT[ctx.pkg.canonical(users[0])] + f" (through the private helper {outer.short})"
+                    def contract_of(v):
+                        return BY_CONTRACT.get(ctx.pkg.canonical(v)) or (
+                            BY_CONTRACT.get(ctx.pkg.canonical_class(v.cls)) if v.cls is not None else None)
+                    if users and all(contract_of(v) for v in users):
+                        contract = contract_of(users[0]) + f" (through the private helper {outer.short})"
                 if contract:
                     ctx.ok("R03.1", u, f"raw call `{norm(call.func)}(...)` is by contract: {contract}")
                 else:
@@ -756,6 +759,11 @@ def class_kind(ctx, fq: str, depth: int = 0) -> str:
 def value_kind(ctx, unit: Unit, e, at, depth: int = 0) -> str:
     if e is None:
         return "PLAIN"
+    # ``return update_wrapper(wrapper, function)``: functools.update_wrapper hands its first argument back
+    if isinstance(e, ast.Call) and e.args:
+        r = ctx.pkg.resolve_expr_global(unit.module, e.func)
+        if r.kind == "stdlib" and r.qual in ("functools.update_wrapper",):
+            return value_kind(ctx, unit, e.args[0], at, depth)
     v = ctx.vals.expr(unit, e, at)
     kinds = set()
     for a in v:
@@ -940,6 +948,15 @@ def _aclose_guard(ctx, u, cfg, n, recv, v, find_path, abstract_values) -> str:
                     comps = [c for c in ast.walk(st.value) if isinstance(c, (ast.GeneratorExp, ast.ListComp))]
                     conds = [c for comp in comps for g in comp.generators for c in g.ifs]
                     if conds and all(abstract_values(ctx, init, _NoAcloseOps(), c, {}) == {False} for c in conds):
+                        return f"elements of self.{tg.attr} are filtered to objects that have aclose"
+                    # ``tuple(filter(predicate, xs))``: the predicate says "no" to an object without aclose
+                    filters = [c for c in ast.walk(st.value) if isinstance(c, ast.Call) and norm(c.func) == "filter" and len(c.args) == 2]
+                    probes = []
+                    for f_ in filters:
+                        pr = ast.copy_location(ast.Call(func=f_.args[0], args=[ast.Name(id="<element>", ctx=ast.Load())], keywords=[]), f_)
+                        ast.fix_missing_locations(pr)
+                        probes.append(pr)
+                    if probes and all(abstract_values(ctx, init, _NoAcloseOps(), pr, {}) == {False} for pr in probes):
                         return f"elements of self.{tg.attr} are filtered to objects that have aclose"
                     if _built_from_guarded_appends(ctx, init, st, find_path):
                         return f"elements of self.{tg.attr} are appended only after an isinstance/hasattr test for aclose"
